@@ -180,3 +180,64 @@ Proof.
     destruct (Z.eqb_spec st 0); [contradiction|]. exact IL.
   - destruct (forLimit (NFlt f) st) as [l d]. cbn [snd] in C. subst d. reflexivity.
 Qed.
+
+(* --- every loop on numbers: golua's loop is the manual's ------------------------------ *)
+Definition num_ok (x : num) : Prop := match x with NInt n => in64 n | NFlt _ => True end.
+
+Theorem for_im_is_manual fuel a b c : num_ok a -> num_ok b -> num_ok c ->
+  for_im fuel a b c = for_s fuel a b c.
+Proof.
+  intros Wa Wb Wc.
+  destruct (is_float_loop a c) eqn:FL.
+  - now apply float_loop_definition.
+  - destruct a as [s|], c as [st|]; try discriminate.
+    destruct (Z.eq_dec st 0) as [->|NZ].
+    + reflexivity.
+    + now apply int_loop_any_limit.
+Qed.
+
+(* --- numeric strings as control values -------------------------------------------------- *)
+Definition fv_ok (v : forval) : Prop := match fv_num v with Some x => num_ok x | None => True end.
+
+Lemma for_im_gen_false fuel a b c : for_im_gen false fuel a b c = for_im fuel a b c.
+Proof. reflexivity. Qed.
+
+(* with a string start or step the loop is the float loop on the converted values *)
+Lemma for_im_gen_true fuel a b c : num_ok c ->
+  for_im_gen true fuel a b c = for_im fuel (NFlt (tofloat a)) b (NFlt (tofloat c)).
+Proof.
+  intros Wc. unfold for_im_gen, for_im, prepfor_v, prepfor_float, prepfor.
+  assert (Z0 : isZero c = isZero (NFlt (tofloat c))).
+  { destruct c as [n|f]; [|reflexivity]. cbn [isZero tofloat]. symmetry. now apply of_int_zero_iff. }
+  rewrite Z0. cbn [tofloat]. reflexivity.
+Qed.
+
+(* numeric strings as control values: golua's loop (after the repair) is the manual's *)
+Theorem string_operand fuel start limit step : fv_ok start -> fv_ok limit -> fv_ok step ->
+  for_im_val fuel start limit step = for_s_val fuel start limit step.
+Proof.
+  intros Ws Wl Wst. unfold for_im_val, for_s_val, fv_ok in *.
+  destruct (fv_num start) as [a|] eqn:A; [|reflexivity].
+  destruct (fv_num limit) as [b|] eqn:B; [|reflexivity].
+  destruct (fv_num step) as [c|] eqn:C; [|reflexivity].
+  f_equal.
+  destruct (fv_is_str start || fv_is_str step) eqn:STR.
+  - (* a string: float loop on both sides *)
+    assert (II : fv_is_int start && fv_is_int step = false).
+    { destruct start as [[?|?]|?|], step as [[?|?]|?|]; cbn in *; try reflexivity; discriminate. }
+    rewrite II. rewrite for_im_gen_true by exact Wst.
+    apply for_im_is_manual; cbn; auto.
+  - rewrite for_im_gen_false. rewrite (for_im_is_manual fuel a b c Ws Wl Wst).
+    destruct (fv_is_int start && fv_is_int step) eqn:II; [reflexivity|].
+    destruct a as [s|x], c as [st|y]; cbn [tofloat]; try reflexivity.
+    exfalso. destruct start as [[?|?]|?|], step as [[?|?]|?|]; cbn in *; try discriminate; congruence.
+Qed.
+
+(* the loop before the repair (type taken after ToNumberValue only) was not the manual's *)
+Theorem string_operand_old_code_refuted :
+  exists fuel a b c, for_im fuel a b c <> for_s fuel (NFlt (tofloat a)) b (NFlt (tofloat c)).
+Proof.
+  exists 5%nat, (NInt 1), (NInt 2), (NInt 1). intro E.
+  apply (f_equal (fun r => match r with FRun (NInt _ :: _) _ => true | _ => false end)) in E.
+  vm_compute in E. discriminate.
+Qed.
